@@ -267,6 +267,8 @@ def constraint(draw, coords, x0z, D, nonlinear, zs, p):
     na = math.sqrt(sum(v * v for v in a))
     a = [v / na for v in a]
     spec = dict(kind=kind, z=zs, ret=ret, x0cls=x0cls)
+    if chance(draw, p.get("p_mutating_cons", 0.06)):
+        spec["mutates"] = True
     r = draw(st.sampled_from([0.5, 1.0, 2.0]))
     # offset of the region's reference point from x0 along direction a, by class
     if kind == "ball":
